@@ -49,7 +49,8 @@ package pool
 //@   aftercall Get: gX = ret0
 //@   modifies nothing
 //@   callsite Reset: [C13,C20:reads-from-the-callers-source-only] arg0 == ptrOf(gX, bufio.Reader) && arg1 == r
-//@   ensures br != nil && br == ptrOf(gX, bufio.Reader)
+//@   ensures br != nil
+//@   ensures [C20:the-pooled-reader] br == ptrOf(gX, bufio.Reader)
 //@ func ReleaseBR1K(br *bufio.Reader)
 //@   props C20
 //@   requires br != nil
